@@ -1062,9 +1062,9 @@ class RNSpec(RPSpec, NetFamily):
 
     def setup(self):
         self.directed = False
-        NetFamily.setup(self)                     # pools for nw / link attributes
-        net = [Mut(k, {"nw": self.m_nw, "set_la": self.m_set_la, "del_la": self.m_del_la}[k])
-               for k in ("nw", "set_la", "del_la")]
+        NetFamily.setup(self)                     # pools for adjacency / nw / link attributes
+        net = [Mut(k, {"adj": self.m_adj, "nw": self.m_nw, "set_la": self.m_set_la, "del_la": self.m_del_la}[k])
+               for k in ("adj", "nw", "set_la", "del_la")]
         RPSpec.setup(self)
         self.mutators = self.mutators + net
 
@@ -1247,8 +1247,8 @@ class JRNSpec(JRPSpec, NetFamily):
     def setup(self):
         self.directed = False
         NetFamily.setup(self)
-        net = [Mut(k, {"nw": self.m_nw, "set_la": self.m_set_la, "del_la": self.m_del_la}[k])
-               for k in ("nw", "set_la", "del_la")]
+        net = [Mut(k, {"adj": self.m_adj, "nw": self.m_nw, "set_la": self.m_set_la, "del_la": self.m_del_la}[k])
+               for k in ("adj", "nw", "set_la", "del_la")]
         JRPSpec.setup(self)
         self.mutators = self.mutators + net
 
@@ -1256,14 +1256,16 @@ class JRNSpec(JRPSpec, NetFamily):
         pass
 
     def after_setter(self, run):
-        run.model.update(w=None, la_w=None)
+        run.model.update(w=None, la_w=None, A_over=False, A=None)
 
     def start(self):
         run = JRPSpec.start(self)
-        run.model.update(w=None, la_w=None)
+        run.model.update(w=None, la_w=None, A_over=False, A=None)
         return run
 
     def finish(self, t, m):
+        if m.get("A_over"):
+            t.adjacency = m["A"].copy()
         if m.get("w") is not None:
             t.node_weights = m["w"].copy()
         if m.get("la_w") is not None:
